@@ -64,7 +64,7 @@ func schedCase(id int, dir string, c *Case, args []string, run *Run) {
 						same = 0
 						detail = fmt.Sprintf("bytes differ procs=%s rep=%d format=%s race=%v code=%d", p, rep, format, isRace, code)
 						if code == -2 {
-							crashed = fmt.Sprintf("hang: benchstat did not exit within %v at GOMAXPROCS=%s format=%s race=%v", binTimeout, p, format, isRace)
+							crashed = fmt.Sprintf("hang: benchstat did not exit at GOMAXPROCS=%s format=%s race=%v (limit %v)", p, format, isRace, binTimeout)
 						} else if bytes.Contains(errb, []byte("panic:")) || bytes.Contains(errb, []byte("fatal error:")) {
 							crashed = fmt.Sprintf("benchstat procs=%s format=%s race=%v: %s", p, format, isRace, firstPanicLine(errb))
 						}
